@@ -14,9 +14,12 @@
                   requests are sent when nothing is refused), C08_merge_complete (no subresource: exact final object, arbitrary
                   post, incl. the transformations under the from_diff law), C08_merge_complete_sub (subresource, plain server:
                   final object = RFC 7386 merge of the whole patch, key by key, for every patch with unique keys)
-        not covered  final object WITH transformations under a subresource: the ops are split by destination path and the
-                  RFC 6902 meaning of the two halves is not derivable from the from_diff law (a `move` across the split is even
-                  lost: Proofs/PatchObj.v po_ex_move_across_split — candidate finding, reported to the lead)
+        refuted   C08_fns_complete_sub_refuted (finding F802: with a subresource the JSON-patch ops are routed by destination path
+                  only; a `move` between the status and the rest loses the removal at its source — all requests 200, nothing carried)
+        partial   C08_fns_complete_sub_partial (subresource, transformations whose from_diff ops all lie on one side of the split:
+                  the server computes the full result and persists the addressed side)
+        monitored ops on both sides without crossing (add/remove/replace): monitors fn-effect-incomplete / incomplete and
+                  the closed-model tie D:server; not proved (needs the locality of RFC 6902 ops per top-level key)
    2 "status through the status subresource exactly when the resource has one"
         full      C08_split (also: each part at most once, order, test op in front of every JSON batch)
    3 "only ever lands on the object it was computed for, never on a later object that reuses its name"
@@ -206,6 +209,48 @@ Theorem C08_merge_complete_sub : forall rvs slip foreign diff patch b0 c0,
     (forall k, String.eqb k "resourceVersion" = false -> po_meta_field k final = po_meta_field k (merge obj0 (JObj patch))).
 Proof. exact po_complete_sub. Qed.
 Print Assumptions C08_merge_complete_sub.
+
+(* "the transformations take their whole effect" is false of the faithful model with a status subresource (finding F802):
+   a transformation moves spec.token into status.token; from_diff answers one `move` op (its law holds on the instance);
+   every request is accepted and nothing is carried; without the subresource the spec loses the token, with it the token
+   stays in the spec *)
+Theorem C08_fns_complete_sub_refuted :
+  let b0 := JObj [("metadata", JObj [("uid", JStr "uid-1")]); ("spec", JObj [("token", JStr "t")]); ("status", JObj [])] in
+  let obj0 := po_stamp (po_ex_rvs 0) b0 in
+  let to_be := JObj [("metadata", JObj [("uid", JStr "uid-1"); ("resourceVersion", JNum 0)]); ("spec", JObj []); ("status", JObj [("token", JStr "t")])] in
+  let fn := mkFn 0 (fun _ => Ok to_be) in
+  let diff := fun _ _ => [OMove "/spec/token" "/status/token"] in
+  apply_ops (diff obj0 to_be) obj0 = Some to_be /\
+  forall has_sub,
+    let r := patch_obj po_world (po_wserve po_ex_rvs (fun _ c => c) has_sub 9 (fun o => o)) diff has_sub [] [fn] (Some obj0) (mkW (Some obj0) 0 0 []) in
+    po_all_ok (r_log r) = true /\ (exists b, r_out r = Returned b None) /\
+    exists final, w_obj (r_srv r) = Some final /\ jp_get final ["status"; "token"] = Some (JStr "t") /\
+                  jp_get final ["spec"; "token"] = (if has_sub then Some (JStr "t") else None).
+Proof. exact po_ex_move_across_split. Qed.
+Print Assumptions C08_fns_complete_sub_refuted.
+
+(* ... and holds when all the ops lie on one side of the split: the single JSON batch carries the whole diff, the server
+   computes the full result [to_be] and persists the addressed side of it (nothing of that side is lost) *)
+Theorem C08_fns_complete_sub_partial : forall rvs slip foreign diff,
+  (forall n, jeqb (rvs n) (rvs n) = true) ->
+  (forall a b, apply_ops (diff a b) a = Some b) ->
+  forall fns b0 c0 to_be,
+    slip <> 0%nat ->
+    let obj0 := po_stamp (rvs c0) b0 in
+    po_run_fns fns obj0 = Ok to_be -> fns <> [] ->
+    let ops := diff obj0 to_be in
+    po_status_ops true ops = [] \/ po_body_ops true ops = [] ->
+    let r := patch_obj po_world (po_wserve rvs (fun _ c => c) true slip foreign) diff true [] fns (Some obj0) (mkW (Some obj0) c0 0 []) in
+    let final := match ops with
+                 | [] => obj0
+                 | _ => match po_status_ops true ops with
+                        | [] => po_stamp (rvs (Datatypes.S c0)) (po_with_status (po_status_of obj0) to_be)
+                        | _ => po_stamp (rvs (Datatypes.S c0)) (po_with_status (po_status_of to_be) obj0)
+                        end
+                 end in
+    w_obj (r_srv r) = Some final /\ (exists b, r_out r = Returned b None) /\ po_all_ok (r_log r) = true.
+Proof. exact po_complete_sub_fns. Qed.
+Print Assumptions C08_fns_complete_sub_partial.
 
 (* whoever else writes — edit, delete, delete-and-recreate under the same name, at any position: a call that carries
    transformations only writes to an object with the uid it was computed for, or leaves the server unchanged *)
